@@ -32,12 +32,14 @@ RULE = ("op lines come from one seeded PRNG: valid signatures made by the real s
         "coefficient for the bad member; non-trivial = the implementation did not refuse the line at its first check")
 TRUSTED = [
     "Model/C03/*.lean is a hand transcription of ssa.py / bip340_nonce.py / commit_nonce.py, tied by correspondence only",
-    "that Btc.EC.ops c satisfies Btc.Lawful (+ YCongr) is property C01's claim and an explicit hypothesis of every C03 theorem",
+    "C01 proves Lawful (opsSub K) (EC.ops C on the reduced pairs of the n-torsion, lift_x filtered); the E2E theorems about the "
+    "executed EC.ops C (T2-T4) carry the named cofactor-one hypothesis hcof (not proved for secp256k1); T1 needs none",
     "retry loops of nonce / tweak derivation are modelled with fuel 10000 (error class `fuel` never observed)",
     "secrets.randbelow is replaced by a stub replaying listed coefficients inside the harness process, for ssa.batch lines only",
     "forgery resistance and the 1/(n-1) batch soundness error are properties of the scheme, not proved",
 ]
-ASSUMPTIONS = ["Btc.Lawful (Btc.EC.ops c) G ∧ Btc.YCongr for prime-order curves (C01)"]
+ASSUMPTIONS = ["hcof: every point of secp256k1 has order dividing n (cofactor one) — hypothesis of the _secp256k1 forms of T2-T4; "
+               "primality of p and n, Δ ≠ 0 and the rest of CurveOk are proved"]
 
 P = secp256k1.p
 N = secp256k1.n
@@ -909,7 +911,9 @@ def _toy_exhaustive(ctx, rng, toys, cap, emin=0):
             qke.append(f"ssa.qke {tok} {q} {k} {e}")
         # emin=1 on cofactor>1 curves: `_assert_as_valid_(0, Q, …)` multiplies a point outside the order-n subgroup by
         # n itself, which the model's `mult` reduces to 0; unreachable from the API (challenge_ refuses zero)
-        for e, x, r, s in itertools.product(range(emin, n), range(p), range(p), range(n + 1)):
+        # r runs to 2p+1: the private `_assert_as_valid_` compares x(K) with r mod p (`KJ[0] != Z²·r % p`), so r + p passes
+        # where r does; only `Sig.assert_valid` in front of it (every public caller) insists on r < p
+        for e, x, r, s in itertools.product(range(emin, n), range(p), range(2 * p + 2), range(n + 1)):
             core.append(f"ssa.core {tok} {e} {x} {r} {s}")
         for hf in ("sha256", "sha1"):
             for mi in range(2):
